@@ -1,9 +1,13 @@
 /-
 C08 — an interrupted single-file external-data save never damages an existing data file.
 Property theorems about `Model/AtomicSave.lean`; helper lemmas in `Lemmas/AtomicSave.lean`.
+Deepening round (second half of the file): symbolic links as file-system objects, every schedule of the
+parallel writer incl. failures inside the writer block, the crash theorem across a whole sharded save
+(`Model/AtomicSaveLinks.lean`, `Lemmas/AtomicSaveLinks.lean`).
 Core Lean only.
 -/
 import IrVerif.Lemmas.AtomicSave
+import IrVerif.Lemmas.AtomicSaveLinks
 namespace IrVerif.AtomicSave
 
 /-- **C08_crash** (every crash point, incl. mid-write and crashes while the exception handlers
@@ -520,5 +524,466 @@ example : (saveSharded 420 false [("a-1", [⟨0, [[7]], none⟩]), ("a-2", [⟨0
     (fun _ => none) exSt).faulted = false ∧
     content (saveSharded 420 false [("a-1", [⟨0, [[7]], none⟩]), ("a-2", [⟨0, [[8]], none⟩])]
       (fun _ => none) exSt).final (.user "a-2") = some [8] := by decide
+
+/-! ## Deepening round: symbolic links, every schedule of the parallel writer, the whole sharded save
+
+Model: `Model/AtomicSaveLinks.lean`; helper lemmas: `Lemmas/AtomicSaveLinks.lean`. -/
+
+/-- **C08_destination_entry** (453-457, 467-471, 496): for every link table (chains of any length,
+relative or absolute texts, `..`, links in the middle of a path = symlinked directories, dangling
+links), every request whose last component is a proper file name and every amount of gas: if the
+destination can be resolved at all, the directory entry `os.replace` overwrites is *not* the location
+of a symbolic link; it is exactly what the requested path reaches when every link is followed (or
+the kernel cannot follow the request at all, then nothing is reachable through it); and the
+temporary directory is created in that entry's own (real) directory, so the rename never crosses
+directories of different file systems. This supersedes `C08_destination_resolved`, which knew links
+only as a name-to-name table. -/
+theorem C08_destination_entry (L : Links) (gas : Nat) (requested entry : Comps)
+    (hb : properBase requested = true) (h : destEntryL L gas requested = some entry) :
+    L.lookup entry = none ∧
+    (realpathL L gas requested = none ∨ realpathL L gas requested = some entry) ∧
+    ∃ d, destinationPathL L gas requested = some d ∧ tmpParentL L gas d = some entry.dropLast :=
+  destEntry_spec L gas requested entry hb h
+
+/-- `saveL` unfolded. -/
+theorem saveL_eq {L0 : Links} {c : LCfg} {f : Nat → Option Nat} {n0 : Nat} {s0 : St} {r : LRes}
+    (h : saveL L0 c f n0 s0 = some r) :
+    ∃ entry, destEntryL L0 c.gas c.requested = some entry ∧
+      r = saveWithL (lower L0 c entry).env entry (tryBody (lower L0 c entry) s0)
+        (postEffs (lower L0 c entry) s0) f n0 ⟨s0, L0⟩ := by
+  unfold saveL at h
+  split at h
+  · simp at h
+  · rename_i entry he
+    simp only [Option.some.injEq] at h
+    exact ⟨entry, he, h.symm⟩
+
+/-- **C08_symlink_kept**: whatever fails and wherever the process dies, the save never changes a
+symbolic link: in every visited state and at the end the link table is the initial one — in
+particular the requested path, if it was a symbolic link, still is the same link with the same text,
+and so is every link of the chain and every symlinked directory on the way. (`os.replace` overwrites
+the resolved entry, never a link: `C08_destination_entry`.) -/
+theorem C08_symlink_kept (L0 : Links) (c : LCfg) (hb : properBase c.requested = true)
+    (f : Nat → Option Nat) (n0 : Nat) (s0 : St) (r : LRes) (h : saveL L0 c f n0 s0 = some r) :
+    (∀ st ∈ r.steps, st.st.links = L0) ∧ r.final.links = L0 := by
+  rcases saveL_eq h with ⟨entry, he, rfl⟩
+  have hk := eraseKey_of_lookup_none entry L0 (destEntry_spec L0 c.gas c.requested entry hb he).1
+  have hs := saveWithL_spec (lower L0 c entry).env entry (tryBody (lower L0 c entry) s0)
+    (postEffs (lower L0 c entry) s0) f n0 s0 L0 hk
+  exact ⟨hs.2.2.2.2, hs.2.2.2.1⟩
+
+/-- The tensors' bytes do not depend on how their paths are spelled. -/
+theorem image_lower (L : Links) (gas : Nat) (ts : List LTensor) :
+    image (ts.map (toTensor L gas)) = image (ts.map fun t => ⟨t.off, t.chunks, none⟩) := by
+  simp only [image, List.foldl_map, toTensor]
+
+/-- **C08_crash_links** (`C08_crash` through the requested path): for every link table, request,
+tensor list, fault assignment and every visited state (= every crash point, incl. mid-write and while
+the handlers run), the bytes reachable *through the requested path* — following the whole chain of
+links as it is in that state — are exactly the bytes reachable before the save, or exactly the
+complete new bytes. -/
+theorem C08_crash_links (L0 : Links) (c : LCfg) (hb : properBase c.requested = true)
+    (f : Nat → Option Nat) (n0 : Nat) (s0 : St) (h0 : WF s0) (r : LRes)
+    (h : saveL L0 c f n0 s0 = some r) :
+    ∀ st ∈ r.steps,
+      reachL st.st.links c.gas st.st.st c.requested = reachL L0 c.gas s0 c.requested ∨
+      reachL st.st.links c.gas st.st.st c.requested = some (image (c.tensors.map (toTensor L0 c.gas))) := by
+  rcases saveL_eq h with ⟨entry, he, rfl⟩
+  have hd := destEntry_spec L0 c.gas c.requested entry hb he
+  have hk := eraseKey_of_lookup_none entry L0 hd.1
+  have hs := saveWithL_spec (lower L0 c entry).env entry (tryBody (lower L0 c entry) s0)
+    (postEffs (lower L0 c entry) s0) f n0 s0 L0 hk
+  intro st hst
+  rw [hs.2.2.2.2 st hst]
+  rcases hd.2.1 with hnone | hsome
+  · left; simp [reachL, hnone]
+  · have hm := mem_steps_of_map hs.1 hst
+    have hc := C08_crash_serial (lower L0 c entry) s0 h0 n0 f st.toStep hm
+    simp only [reachL, hsome, Option.bind_some]
+    simpa [content, lower, LStep.toStep, save] using hc
+
+/-- **C08_exception_links** (`C08_exception` with links): exactly one effect fails, at or before
+`os.replace`; then the exception leaves, no symbolic link changed, *every* path (spelled any way)
+reaches the bytes it reached before, the temporary file and directory are gone and no tensor was
+invalidated. -/
+theorem C08_exception_links (L0 : Links) (c : LCfg) (hb : properBase c.requested = true)
+    (s0 : St) (h0 : WF s0) (hdir : s0.fs.isDir .tmpDir = false) (n0 : Nat) (f : Nat → Option Nat)
+    (entry : Comps) (he : destEntryL L0 c.gas c.requested = some entry) (r : LRes)
+    (h : saveL L0 c f n0 s0 = some r) (k p : Nat) (hk : f k = some p)
+    (hone : ∀ n, n ≠ k → f n = none) (hlo : n0 ≤ k)
+    (hhi : k ≤ n0 + 1 + (tryBody (lower L0 c entry) s0).length) :
+    r.faulted = true ∧ r.final.links = L0 ∧
+    (∀ q, reachL r.final.links c.gas r.final.st q = reachL L0 c.gas s0 q) ∧
+    r.final.st.fs.file .tmpFile = none ∧ r.final.st.fs.isDir .tmpDir = false ∧
+    r.final.st.valid = s0.valid := by
+  rcases saveL_eq h with ⟨entry', he', rfl⟩
+  have : entry' = entry := by rw [he] at he'; exact (Option.some.inj he').symm
+  subst this
+  have hd := destEntry_spec L0 c.gas c.requested entry' hb he
+  have hkk := eraseKey_of_lookup_none entry' L0 hd.1
+  have hs := saveWithL_spec (lower L0 c entry').env entry' (tryBody (lower L0 c entry') s0)
+    (postEffs (lower L0 c entry') s0) f n0 s0 L0 hkk
+  have hx := C08_exception_serial (lower L0 c entry') s0 h0 hdir n0 f k p hk hone hlo hhi
+  simp only [save] at hx
+  refine ⟨by rw [hs.2.2.1]; exact hx.1, hs.2.2.2.1, fun q => ?_, by rw [hs.2.1]; exact hx.2.2.1,
+    by rw [hs.2.1]; exact hx.2.2.2.1, by rw [hs.2.1]; exact hx.2.2.2.2.1⟩
+  rw [hs.2.2.2.1, hs.2.1]
+  simp only [reachL]
+  cases realpathL L0 c.gas q with
+  | none => rfl
+  | some rq =>
+    have := (hx.2.1 (nameOf rq)).2.1
+    simpa [content] using this
+
+/-- **C08_invalidate_iff_links** (`C08_invalidate_iff` with symbolic-link aliases and hard links, as
+after `fix:` 43b6cd9): if no effect after `os.replace` fails, then at the end a tensor is invalid iff
+it was invalid before, or the destination was replaced, the destination entry named a file, and the
+tensor is an external tensor whose path — spelled any way: the requested name, any link of the
+chain, a path through a symlinked directory, the real name — resolves to that very entry. A tensor
+that reads the old inode through another *hard link* (a different entry) stays valid, and so does
+every tensor when the save fails. -/
+theorem C08_invalidate_iff_links (L0 : Links) (c : LCfg) (s0 : St) (h0 : WF s0) (hb : properBase c.requested = true)
+    (hrep : s0.replaced = false) (n0 : Nat) (f : Nat → Option Nat)
+    (entry : Comps) (he : destEntryL L0 c.gas c.requested = some entry) (r : LRes)
+    (h : saveL L0 c f n0 s0 = some r)
+    (hlate : ∀ m, n0 + 1 + (tryBody (lower L0 c entry) s0).length < m → f m = none) (i : Nat) :
+    r.final.st.valid i = false ↔
+      (s0.valid i = false ∨
+        (r.final.st.replaced = true ∧ (s0.fs.file (.user (nameOf entry))).isSome = true ∧
+          ∃ t e, c.tensors[i]? = some t ∧ t.ext = some e ∧
+            followName L0 c.gas e.path = nameOf entry)) := by
+  rcases saveL_eq h with ⟨entry', he', rfl⟩
+  have : entry' = entry := by rw [he] at he'; exact (Option.some.inj he').symm
+  subst this
+  have hd := destEntry_spec L0 c.gas c.requested entry' hb he
+  have hkk := eraseKey_of_lookup_none entry' L0 hd.1
+  have hs := saveWithL_spec (lower L0 c entry').env entry' (tryBody (lower L0 c entry') s0)
+    (postEffs (lower L0 c entry') s0) f n0 s0 L0 hkk
+  have hx := C08_invalidate_iff (lower L0 c entry') s0 h0 hrep n0 f hlate i
+  simp only [save] at hx
+  rw [hs.2.1, hx]
+  have hin : i ∈ invalidated (lower L0 c entry') s0 ↔
+      ((s0.fs.file (.user (nameOf entry'))).isSome = true ∧
+        ∃ t e, c.tensors[i]? = some t ∧ t.ext = some e ∧ followName L0 c.gas e.path = nameOf entry') := by
+    unfold invalidated
+    rw [invalidated_spec]
+    simp only [lower, Nat.sub_zero, Nat.zero_le, true_and, List.getElem?_map, Option.map_eq_some_iff]
+    constructor
+    · rintro ⟨t, e, ⟨lt, hlt, rfl⟩, hext, hsf, hp⟩
+      simp only [toTensor, Option.map_eq_some_iff] at hext
+      rcases hext with ⟨le, hle, rfl⟩
+      simp only at hp hsf
+      refine ⟨?_, lt, le, hlt, hle, hp⟩
+      rw [hp] at hsf
+      simp only [sameFile] at hsf
+      cases hf : s0.fs.file (.user (nameOf entry')) with
+      | none => simp [hf] at hsf
+      | some a => rfl
+    · rintro ⟨hsome, lt, le, hlt, hle, hp⟩
+      refine ⟨toTensor L0 c.gas lt, ⟨followName L0 c.gas le.path, le.off, le.len⟩, ⟨lt, hlt, rfl⟩, ?_, ?_, hp⟩
+      · simp [toTensor, hle]
+      · simp only [hp, sameFile]
+        cases hf : s0.fs.file (.user (nameOf entry')) with
+        | none => simp [hf] at hsome
+        | some a => simp
+  rw [hin]
+  constructor
+  · rintro (h1 | ⟨⟨h2, h3⟩, h4⟩)
+    · exact Or.inl h1
+    · exact Or.inr ⟨h4, h2, h3⟩
+  · rintro (h1 | ⟨h4, h2, h3⟩)
+    · exact Or.inl h1
+    · exact Or.inr ⟨⟨h2, h3⟩, h4⟩
+
+/-- **C08_parallel_language**: every trace of the language of `_write_parallel` (`parValid`: the
+prelude, any interleaving of the workers' `openW/seekW/writeW` and the call-backs, the closing of
+the handles) consists of effects on the temporary file only. The harness checks on every run that
+the traces of the real parallel writer belong to this language. -/
+theorem C08_parallel_language (cfg : Cfg) (maxWorkers : Nat) (trace : List Eff)
+    (h : parValid cfg maxWorkers trace = true) : ∀ e ∈ trace, e.tmpOnly = true := by
+  unfold parValid at h
+  split at h
+  · rename_i n rest
+    simp only [Bool.and_eq_true] at h
+    have hmid := h.1.1.1.1.1.1.2
+    have hcl := h.1.1.1.1.1.2
+    intro e he
+    simp only [List.mem_cons] at he
+    rcases he with rfl | rfl | rfl | he
+    · rfl
+    · rfl
+    · rfl
+    · rw [← List.takeWhile_append_dropWhile (p := fun e => !isCloseW e) (l := rest)] at he
+      simp only [List.mem_append] at he
+      rcases he with he | he
+      · have := List.all_eq_true.mp hmid e he
+        cases e <;> first | rfl | simp [isMid] at this
+      · have := List.all_eq_true.mp hcl e he
+        cases e <;> first | rfl | simp [isCloseW] at this
+  · simp at h
+
+/-- States in which `os.replace` has not been executed show the caller exactly what it saw before
+the save (helper for the schedule theorems). -/
+theorem saveWith_unreplaced_old (env : Env) (body post : List Eff) (hb : ∀ e ∈ body, e.tmpOnly = true)
+    (hp : ∀ e ∈ post, e.noData = true) (s0 : St) (h0 : WF s0) (n0 : Nat) (f : Nat → Option Nat) :
+    ∀ st ∈ (saveWith env body post f n0 s0).steps, st.st.replaced = false →
+      ∀ n, content st.st (.user n) = content s0 (.user n) := by
+  intro st hst hrep n
+  rcases (saveWith_states env body post hb hp s0 h0 n0 f).1 st hst with ho | hfz
+  · exact old_content h0 ho n
+  · rw [frozen_content hfz]
+    have ho2 : Old s0 (runList env (fun _ => none) body (n0 + 1) (apply env s0 .mkdtemp)).final :=
+      (runList_old env (fun _ => none) body hb (n0 + 1) _ (old_apply env .mkdtemp rfl (Old.refl s0 h0))).1
+    have hr := hfz.replaced
+    rw [hrep] at hr
+    unfold afterReplace at hr ⊢
+    generalize (runList env (fun _ => none) body (n0 + 1) (apply env s0 .mkdtemp)).final = s2 at ho2 hr ⊢
+    cases ht : s2.fs.file .tmpFile with
+    | some t => simp [apply, ht] at hr
+    | none =>
+      have : apply env s2 .replace = s2 := by simp [apply, ht]
+      rw [this]
+      exact old_content h0 ho2 n
+
+/-- **C08_crash_schedule** (every schedule of the parallel writer, with failures inside the block):
+let the writer block be *any* sequence of effects on the temporary file in which *any* subset of
+effects failed while the block went on — every interleaving of the workers of `_write_parallel`
+(`C08_parallel_language`), the other workers running on after a failure, the handles being closed in
+the `finally` — and let any effects outside the block fail as well. Then in every visited state
+(every crash point) the destination holds exactly its previous bytes or exactly the bytes of the
+fault-free save; and as long as `os.replace` has not been executed every caller path shows exactly
+the bytes it showed before the save. -/
+theorem C08_crash_schedule (cfg : Cfg) (m : List Marked) (hm : ∀ x ∈ m, x.1.tmpOnly = true)
+    (s0 : St) (h0 : WF s0) (n0 : Nat) (f : Nat → Option Nat) :
+    ∀ st ∈ (saveMarked cfg m f n0 s0).steps,
+      (content st.st (.user cfg.env.dest) = content s0 (.user cfg.env.dest) ∨
+        content st.st (.user cfg.env.dest) =
+          content (saveWriter cfg (m.map (·.1)) (fun _ => none) n0 s0).final (.user cfg.env.dest)) ∧
+      (st.st.replaced = false → ∀ n, content st.st (.user n) = content s0 (.user n)) := by
+  have hw : ∀ e ∈ m.map (·.1), e.tmpOnly = true := by
+    intro e he
+    simp only [List.mem_map] at he
+    rcases he with ⟨x, hx, rfl⟩
+    exact hm x hx
+  intro st hst
+  unfold saveMarked at hst
+  split at hst
+  · generalize (fun k => if n0 < k ∧ k ≤ n0 + m.length then none else f k) = f' at hst
+    have h1 := C08_crash_writer cfg (m.map (·.1)) hw s0 h0 n0 f' st hst
+    have hst' : st ∈ (saveWith cfg.env (tryBodyWith cfg s0 (m.map (·.1))) (postEffs cfg s0) f' n0 s0).steps := hst
+    have h2 := saveWith_unreplaced_old cfg.env (tryBodyWith cfg s0 (m.map (·.1))) (postEffs cfg s0)
+      (tryBodyWith_tmpOnly cfg s0 _ hw) (postEffs_noData cfg s0) s0 h0 n0 f' st hst'
+    exact ⟨h1, h2⟩
+  · have hold : Old s0 st.st := by
+      simp only [] at hst
+      have ha := runList_old cfg.env f [.mkdtemp] (by intro e he; simp at he; subst he; rfl) n0 s0 (Old.refl s0 h0)
+      split at hst
+      · exact ha.2 st hst
+      · have hb := runMarked_old cfg.env m hm _ ha.1
+        have hc := runList_old cfg.env f [.removeTmp, .rmdirTmp] cleanup_tmpOnly (n0 + 1 + m.length) _ hb.1
+        simp only [List.mem_append] at hst
+        rcases hst with (hst | hst) | hst
+        · exact ha.2 st hst
+        · exact hb.2 st hst
+        · exact hc.2 st hst
+    exact ⟨Or.inl (old_content h0 hold _), fun _ n => old_content h0 hold n⟩
+
+/-- **C08_exception_schedule**: if some effect of the writer block failed — under any schedule,
+whatever the other workers still did, whatever else fails — the exception leaves the function and in
+every visited state and at the end every caller path names the same inode with the same bytes and
+mode as before, no tensor was invalidated and every external tensor reads what it read before. -/
+theorem C08_exception_schedule (cfg : Cfg) (m : List Marked) (hm : ∀ x ∈ m, x.1.tmpOnly = true)
+    (hfail : allOk m = false) (s0 : St) (h0 : WF s0) (n0 : Nat) (f : Nat → Option Nat) :
+    let r := saveMarked cfg m f n0 s0
+    r.faulted = true ∧
+    ∀ s, (s = r.final ∨ ∃ st ∈ r.steps, s = st.st) →
+      (∀ n, s.fs.file (.user n) = s0.fs.file (.user n) ∧ content s (.user n) = content s0 (.user n) ∧
+            (s.fs.file (.user n)).map s.fs.mode = (s0.fs.file (.user n)).map s0.fs.mode) ∧
+      s.valid = s0.valid ∧
+      (∀ i e, (∀ mm, s0.mapped i = some mm → s0.fs.file (.user e.path) = some mm) →
+        readT s i e = readT s0 i e) := by
+  intro r
+  have ha := runList_old cfg.env f [.mkdtemp] (by intro e he; simp at he; subst he; rfl) n0 s0 (Old.refl s0 h0)
+  have key : r.faulted = true ∧ Old s0 r.final ∧ ∀ st ∈ r.steps, Old s0 st.st := by
+    show (saveMarked cfg m f n0 s0).faulted = true ∧ Old s0 (saveMarked cfg m f n0 s0).final ∧
+      ∀ st ∈ (saveMarked cfg m f n0 s0).steps, Old s0 st.st
+    unfold saveMarked
+    simp only [hfail, Bool.false_eq_true, if_false]
+    split
+    · rename_i hf
+      exact ⟨hf, ha.1, ha.2⟩
+    · have hb := runMarked_old cfg.env m hm _ ha.1
+      have hc := runList_old cfg.env f [.removeTmp, .rmdirTmp] cleanup_tmpOnly (n0 + 1 + m.length) _ hb.1
+      refine ⟨rfl, hc.1, ?_⟩
+      intro st hst
+      simp only [List.mem_append] at hst
+      rcases hst with (hst | hst) | hst
+      · exact ha.2 st hst
+      · exact hb.2 st hst
+      · exact hc.2 st hst
+  refine ⟨key.1, ?_⟩
+  intro s hs
+  have ho : Old s0 s := by
+    rcases hs with rfl | ⟨st, hst, rfl⟩
+    · exact key.2.1
+    · exact key.2.2 st hst
+  exact ⟨fun n => ⟨ho.user n, old_content h0 ho n, old_mode h0 ho n⟩, ho.valid,
+    fun i e hmm => old_read h0 ho i e hmm⟩
+
+/-- The final state of a serial save: old or new (helper: `C08_crash_serial` for the state the
+function returns or raises in). -/
+theorem save_final_content (cfg : Cfg) (s0 : St) (h0 : WF s0) (n0 : Nat) (f : Nat → Option Nat) :
+    content (save cfg f n0 s0).final (.user cfg.env.dest) = content s0 (.user cfg.env.dest) ∨
+    content (save cfg f n0 s0).final (.user cfg.env.dest) = some (image cfg.tensors) := by
+  rw [← C08_new_is_image cfg s0 h0 n0]
+  unfold save
+  have hnew := saveWith_none_frozen cfg.env (tryBody cfg s0) (postEffs cfg s0) (postEffs_noData cfg s0) s0 n0
+  rcases (saveWith_states cfg.env (tryBody cfg s0) (postEffs cfg s0) (tryBody_tmpOnly cfg s0)
+    (postEffs_noData cfg s0) s0 h0 n0 f).2 with h | h
+  · left; exact old_content h0 h _
+  · right; rw [frozen_content h, frozen_content hnew]
+
+/-- "Old, or the complete image of a shard that is written there." -/
+def ShardInv (jobs : List (String × List Tensor)) (s0 s : St) : Prop :=
+  ∀ n, content s (.user n) = content s0 (.user n) ∨
+    ∃ ts, (n, ts) ∈ jobs ∧ content s (.user n) = some (image ts)
+
+theorem shardLoop_crash (newMode : Nat) (cb : Bool) (f : Nat → Option Nat)
+    (all : List (String × List Tensor)) (s0 : St) :
+    ∀ (jobs : List (String × List Tensor)) (n : Nat) (s : St), (∀ j ∈ jobs, j ∈ all) → WF s →
+      ShardInv all s0 s →
+      (∀ st ∈ (shardLoop newMode cb f jobs n s).steps, ShardInv all s0 st.st) ∧
+      ShardInv all s0 (shardLoop newMode cb f jobs n s).final
+  | [], _, s, _, _, hi => by simp [shardLoop, hi]
+  | (d, ts) :: rest, n, s, hsub, hs, hi => by
+    have hmem : (d, ts) ∈ all := hsub (d, ts) (by simp)
+    have hk := save_kept ⟨⟨d, newMode⟩, ts, cb⟩ s hs n f
+    have step : ∀ st : St, KeptBut d s st →
+        (content st (.user d) = content s (.user d) ∨ content st (.user d) = some (image ts)) →
+        ShardInv all s0 st := by
+      intro st hkb hd x
+      by_cases hx : x = d
+      · subst hx
+        rcases hd with hd | hd
+        · rw [hd]; exact hi x
+        · exact Or.inr ⟨ts, hmem, hd⟩
+      · rw [keptBut_content hs.named hkb x hx]; exact hi x
+    have hvis : ∀ st ∈ (save ⟨⟨d, newMode⟩, ts, cb⟩ f n s).steps, ShardInv all s0 st.st :=
+      fun st hst => step st.st (hk.1 st hst) (C08_crash_serial ⟨⟨d, newMode⟩, ts, cb⟩ s hs n f st hst)
+    have hfin : ShardInv all s0 (save ⟨⟨d, newMode⟩, ts, cb⟩ f n s).final :=
+      step _ hk.2 (save_final_content ⟨⟨d, newMode⟩, ts, cb⟩ s hs n f)
+    simp only [shardLoop]
+    split
+    · exact ⟨hvis, hfin⟩
+    · rename_i hok
+      have hok' : (save ⟨⟨d, newMode⟩, ts, cb⟩ f n s).faulted = false := by simpa using hok
+      have hwf := save_ok_wf ⟨⟨d, newMode⟩, ts, cb⟩ s hs n f hok'
+      have ih := shardLoop_crash newMode cb f all s0 rest
+        (n + (save ⟨⟨d, newMode⟩, ts, cb⟩ f n s).steps.length) _
+        (fun j hj => hsub j (by simp [hj])) hwf hfin
+      refine ⟨?_, ih.2⟩
+      intro st hst
+      simp only [List.mem_append] at hst
+      rcases hst with hst | hst
+      · exact hvis st hst
+      · exact ih.1 st hst
+
+/-- **C08_sharded_crash** (`C08_crash` across the whole multi-file save): in every visited state of a
+sequential sharded save — every crash point inside any shard's save and between shard i and shard
+i+1 — and at the end, under every fault assignment, *every* caller path holds exactly the bytes it
+held before the save, or it is the destination of a shard and holds exactly that shard's complete
+bytes; never a mixture, never a truncation, of any file. (With `C08_sharded_no_touch`: a path that
+existed before always is in the first case.) -/
+theorem C08_sharded_crash (newMode : Nat) (cb : Bool) (jobs : List (String × List Tensor))
+    (f : Nat → Option Nat) (s0 : St) (h0 : WF s0) :
+    (∀ st ∈ (saveSharded newMode cb jobs f s0).steps, ∀ n,
+      content st.st (.user n) = content s0 (.user n) ∨
+      ∃ ts, (n, ts) ∈ jobs ∧ content st.st (.user n) = some (image ts)) ∧
+    (∀ n, content (saveSharded newMode cb jobs f s0).final (.user n) = content s0 (.user n) ∨
+      ∃ ts, (n, ts) ∈ jobs ∧
+        content (saveSharded newMode cb jobs f s0).final (.user n) = some (image ts)) := by
+  unfold saveSharded
+  split
+  · simp
+  · exact shardLoop_crash newMode cb f jobs s0 jobs 0 s0 (fun _ h => h) h0 (fun _ => Or.inl rfl)
+
+/-! ### Non-vacuity of the deepening-round theorems -/
+
+/-- `model.data -> current.data -> (absolute) store/w.bin`, a symlinked directory `ld -> sub`, a link with
+`..` in its text, a dangling link and a cycle -/
+def exLinks : Links :=
+  [(["model.data"], ⟨false, ["current.data"]⟩), (["current.data"], ⟨true, ["store", "w.bin"]⟩),
+   (["ld"], ⟨false, ["sub"]⟩), (["sub", "up"], ⟨false, ["..", "store", "w.bin"]⟩),
+   (["dangling"], ⟨false, ["store", "new.bin"]⟩), (["a"], ⟨false, ["b"]⟩), (["b"], ⟨false, ["a"]⟩)]
+
+/-- `store/w.bin` = inode 0 `[1,2,3,4]`, `hard.data` another name of inode 0 -/
+def exFSL : FS :=
+  ⟨fun p => if p = .user "store/w.bin" ∨ p = .user "hard.data" then some 0 else none, fun _ => false,
+   fun i => if i = 0 then [1, 2, 3, 4] else [], fun _ => 384, 1⟩
+
+def exStL : St := ⟨exFSL, none, 0, fun _ => true, fun _ => none, fun _ => none, false, fun _ => none⟩
+
+theorem exStL_wf : WF exStL :=
+  ⟨fun p i h => by
+      simp only [exStL, exFSL] at h ⊢
+      split at h
+      · simp at h; omega
+      · simp at h,
+   rfl, rfl, fun _ => rfl⟩
+
+/-- tensor 0 in memory; 1 reads the file through the symlinked directory and a `..` link; 2 through
+the hard link; 3 through the requested name -/
+def exCfgL : LCfg :=
+  ⟨40, ["model.data"], 420,
+   [⟨0, [[9, 9, 8]], none⟩, ⟨3, [[1, 2]], some ⟨["ld", "up"], 0, 2⟩⟩, ⟨5, [[3]], some ⟨["hard.data"], 2, 1⟩⟩,
+    ⟨6, [[4]], some ⟨["model.data"], 3, 1⟩⟩], false⟩
+
+example : properBase exCfgL.requested = true := by decide
+example : destEntryL exLinks 40 ["model.data"] = some ["store", "w.bin"] := by decide
+example : destEntryL exLinks 40 ["ld", "m.data"] = some ["sub", "m.data"] := by decide
+example : destEntryL exLinks 40 ["dangling"] = some ["store", "new.bin"] := by decide
+example : destEntryL exLinks 40 ["a"] = none := by decide
+example : isLinkL exLinks 40 ["ld", "up"] = true ∧ realpathL exLinks 40 ["ld", "up"] = some ["store", "w.bin"] := by
+  decide
+/-- the two-hop chain is kept, the bytes behind the requested name are replaced, the aliases (1, 3) are
+invalidated, the hard-link reader (2) is not and still reads the old byte -/
+def exResL : Option LRes := saveL exLinks exCfgL (fun _ => none) 0 exStL
+example : exResL.map (·.faulted) = some false := by decide
+example : exResL.map (·.final.links) = some exLinks := by decide
+example : exResL.map (fun r => reachL r.final.links 40 r.final.st ["model.data"]) = some (some [9, 9, 8, 1, 2, 3, 4]) := by
+  decide
+example : exResL.map (fun r => [0, 1, 2, 3].map r.final.st.valid) = some [true, false, true, false] := by decide
+example : exResL.map (fun r => readT r.final.st 2 ⟨"hard.data", 2, 1⟩) = some (some [3]) := by decide
+/-- a replace that targeted the *requested* entry would destroy the link (what `applyL` can express
+and `C08_symlink_kept` excludes) -/
+example : eraseKey ["model.data"] exLinks ≠ exLinks := by decide
+/-- a fault in the middle (one byte of the first write gets through): old bytes through every alias -/
+def exResLF : Option LRes := saveL exLinks exCfgL (fun n => if n = 3 then some 1 else none) 0 exStL
+example : exResLF.map (·.faulted) = some true := by decide
+example : exResLF.map (fun r => reachL r.final.links 40 r.final.st ["model.data"]) = some (some [1, 2, 3, 4]) := by decide
+example : exResLF.map (fun r => reachL r.final.links 40 r.final.st ["ld", "up"]) = some (some [1, 2, 3, 4]) := by decide
+example : exResLF.map (fun r => r.final.st.valid 1) = some true := by decide
+
+/-- the parallel writer's example trace is in the language; a trace that skips a tensor is not -/
+example : parValid exCfg 2 [.openTmp, .truncate 5, .closeTmp, .openW 0, .callback 1, .openW 1, .callback 0, .seekW 1 0,
+    .seekW 0 3, .writeW 1 [9, 9], .writeW 0 [1, 2], .writeW 1 [8], .closeW 0, .closeW 1] = true := by decide
+example : parValid { exCfg with cb := false } 2 [.openTmp, .truncate 5, .closeTmp, .openW 0, .seekW 0 0, .writeW 0 [9, 9], .writeW 0 [8], .closeW 0] = false := by
+  decide
+/-- worker 1's write fails after one byte, worker 0 runs on, the handles are closed: the exception
+leaves, the destination is as before -/
+def exMarked : List Marked :=
+  [(.openTmp, none), (.truncate 5, none), (.closeTmp, none), (.openW 0, none), (.openW 1, none), (.seekW 1 3, none),
+   (.writeW 1 [1, 2], some 1), (.seekW 0 0, none), (.writeW 0 [9, 9, 8], none), (.closeW 0, none), (.closeW 1, none)]
+example : allOk exMarked = false ∧ (∀ x ∈ exMarked, x.1.tmpOnly = true) ∧
+    (saveMarked exCfg exMarked (fun _ => none) 0 exSt).faulted = true ∧
+    (saveMarked exCfg exMarked (fun _ => none) 0 exSt).steps.length = 14 ∧
+    content (saveMarked exCfg exMarked (fun _ => none) 0 exSt).final (.user "m.data") = some [1, 2, 3, 4] ∧
+    (saveMarked exCfg exMarked (fun _ => none) 0 exSt).final.fs.isDir .tmpDir = false := by decide
+/-- sharded: a crash between shard 1 and shard 2 (the second `mkdtemp` fails): shard 1 complete, shard 2 absent -/
+example :
+    let r := saveSharded 420 false [("a-1", [⟨0, [[7]], none⟩]), ("a-2", [⟨0, [[8]], none⟩])]
+      (fun n => if n = 9 then some 0 else none) exSt
+    r.faulted = true ∧ content r.final (.user "a-1") = some [7] ∧ content r.final (.user "a-2") = none ∧
+    content r.final (.user "m.data") = some [1, 2, 3, 4] := by decide
 
 end IrVerif.AtomicSave
